@@ -368,7 +368,16 @@ def run(ctx):
         caller = a["func"].root().path
         key = "%s writes Fdt.last_publish" % caller.split("::")[-1]
         if caller == FDT + "::publish" and show(a["value"]) == "Option::Some{0: now}":
-            r3.ok(key, "= Some(now)", loc(a["sp"]))
+            # a publish() that fails before the instance is queued must not look like a publication: the renewal decision (R7) measures the
+            # age of the instance on the wire from last_publish
+            pbs = set(s.bb for s in pushes)
+            queued, w = flow.must_pass(0, [a["bb"]], lambda n: n[0] == "b" and n[1] in pbs) if a["bb"] not in pbs else (True, None)
+            if a["func"].root() is not pub or (queued and pbs and a["bb"] != 0):
+                r3.ok(key, "= Some(now), after the instance was queued", loc(a["sp"]))
+            else:
+                r3.violation(key, "last_publish is refreshed on a path of publish() that has not queued an instance (before a fallible step): after "
+                                  "a failed publish the sender believes a fresh instance is on the wire and does not renew it before it expires",
+                             loc(a["sp"]))
         else:
             r3.violation(key, "last_publish = %s in %s: it must record the `now` of publish()" % (show(a["value"], 60), caller), loc(a["sp"]))
     r3.floor(5, "expiry facts")
